@@ -13,7 +13,7 @@ namespace TarpcModel.Client
 def bsig (l : List BCall) : List (Nat × Nat) := l.map (fun c => (c.cid, c.deadline))
 
 /-- The book agrees with the model about handles and about which calls exist with which deadline. -/
-structure Cpl (c : Sys) (bk : Book) : Prop where
+structure BCpl (c : Sys) (bk : Book) : Prop where
   handles : bk.handles = c.s.handles
   nextHandle : bk.nextHandle = c.s.nextHandle
   calls : bsig bk.calls = sigD c.s.calls
@@ -28,7 +28,7 @@ theorem bsig_updCall (b : Book) (cid : Nat) (f : BCall → BCall)
   · rw [(hf x).1, (hf x).2]
   · rfl
 
-theorem Cpl.endOp {c : Sys} {bk : Book} (h : Cpl c bk) : Cpl c bk.endOp := by
+theorem BCpl.endOp {c : Sys} {bk : Book} (h : BCpl c bk) : BCpl c bk.endOp := by
   unfold Book.endOp
   simp only
   split
@@ -39,7 +39,7 @@ theorem Cpl.endOp {c : Sys} {bk : Book} (h : Cpl c bk) : Cpl c bk.endOp := by
     · intro x; split <;> exact ⟨rfl, rfl⟩
   · exact ⟨h.handles, h.nextHandle, h.calls⟩
 
-theorem Cpl.obs {c : Sys} {bk : Book} (h : Cpl c bk) (o : Obs) : Cpl c (bk.step (.obs o)) := by
+theorem BCpl.obs {c : Sys} {bk : Book} (h : BCpl c bk) (o : Obs) : BCpl c (bk.step (.obs o)) := by
   unfold Book.step
   simp only
   split <;> first
@@ -50,12 +50,12 @@ theorem Cpl.obs {c : Sys} {bk : Book} (h : Cpl c bk) (o : Obs) : Cpl c (bk.step 
        · exact h.calls
        · intro x; exact ⟨rfl, rfl⟩)
 
-theorem Cpl.len {c : Sys} {bk : Book} (h : Cpl c bk) : bk.calls.length = c.s.calls.length := by
+theorem BCpl.len {c : Sys} {bk : Book} (h : BCpl c bk) : bk.calls.length = c.s.calls.length := by
   have := congrArg List.length h.calls
   simpa [bsig, sigD] using this
 
-theorem Cpl.op {c : Sys} {bk : Book} (hi : Inv c.s c.now) (h : Cpl c bk) (op : COp) :
-    Cpl (stepOp c op).1 (bk.step (.op op)) := by
+theorem BCpl.op {c : Sys} {bk : Book} (hi : StInv c.s c.now) (h : BCpl c bk) (op : COp) :
+    BCpl (stepOp c op).1 (bk.step (.op op)) := by
   have he := h.endOp
   obtain ⟨-, hf⟩ := stepOp_frame hi op
   unfold Book.step
@@ -107,11 +107,11 @@ theorem Cpl.op {c : Sys} {bk : Book} (hi : Inv c.s c.now) (h : Cpl c bk) (op : C
   | take n => exact ⟨he.handles.trans hf.2.1.symm, he.nextHandle.trans hf.2.2.symm, he.calls.trans hf.1.symm⟩
   | advance n => exact ⟨he.handles.trans hf.2.1.symm, he.nextHandle.trans hf.2.2.symm, he.calls.trans hf.1.symm⟩
 
-theorem cpl_init (m bcap tcap : Nat) (coupled : Bool) : Cpl (initSys m bcap tcap coupled) {} :=
+theorem cpl_init (m bcap tcap : Nat) (coupled : Bool) : BCpl (initSys m bcap tcap coupled) {} :=
   ⟨rfl, rfl, rfl⟩
 
 /-- The book finds the model's call: same deadline. -/
-theorem Cpl.find {c : Sys} {bk : Book} (h : Cpl c bk) {cid : Nat} {ci : BCall}
+theorem BCpl.find {c : Sys} {bk : Book} (h : BCpl c bk) {cid : Nat} {ci : BCall}
     (hf : bk.calls.find? (·.cid == cid) = some ci) :
     ∃ cl ∈ c.s.calls, cl.cid = cid ∧ cl.ctx.deadline = ci.deadline := by
   have hm : (ci.cid, ci.deadline) ∈ bsig bk.calls :=
@@ -125,7 +125,7 @@ theorem Cpl.find {c : Sys} {bk : Book} (h : Cpl c bk) {cid : Nat} {ci : BCall}
 
 /-! ### a generic acceptance lemma -/
 
-theorem Mon.step_book {σ : Type} (check : Book → σ → CEv → σ × Option String) (m : Mon σ) (e : CEv) :
+theorem Mon.step_book_eq {σ : Type} (check : Book → σ → CEv → σ × Option String) (m : Mon σ) (e : CEv) :
     (Mon.step check m e).book = m.book.step e := by
   unfold Mon.step
   simp only
@@ -149,28 +149,32 @@ theorem Mon.step_ok_obs {σ : Type} (check : Book → σ → CEv → σ × Optio
   · simp [hs, hb]
   · simp [hs, hc, hb]
 
-theorem mon_accepts_from {σ : Type} (check : Book → σ → CEv → σ × Option String) (m : Nat)
+theorem mon_accepts_from {σ : Type} (check : Book → σ → CEv → σ × Option String) (m T : Nat)
     (hop : ∀ bk st op, (check bk st (.op op)).2 = none)
-    (hobs : ∀ (c : Sys) bk st o, c.s.maxInFlight = m → Inv c.s c.now → Cpl c bk → ObsGood m c.s.calls o →
-      (check bk st (.obs o)).2 = none)
-    (ops : List COp) (c : Sys) (mon : Mon σ) (hi : Inv c.s c.now) (hm : c.s.maxInFlight = m) (hc : Cpl c mon.book)
-    (hb : mon.bad = none) : ((trace c ops).foldl (Mon.step check) mon).bad = none := by
+    (hobs : ∀ (c : Sys) bk st o, c.s.maxInFlight = m → c.now ≤ T → StInv c.s c.now → BCpl c bk →
+      ObsGood m c.s.calls c.now o → (check bk st (.obs o)).2 = none)
+    (ops : List COp) (c : Sys) (mon : Mon σ) (hi : StInv c.s c.now) (hm : c.s.maxInFlight = m) (hc : BCpl c mon.book)
+    (hb : mon.bad = none) (hT : c.now + advSum ops ≤ T) : ((trace c ops).foldl (Mon.step check) mon).bad = none := by
   induction ops generalizing c mon with
   | nil => exact hb
   | cons op ops ih =>
     simp only [trace, List.foldl_cons, List.foldl_append]
     have hi' := inv_stepOp hi op
     have hm' : (stepOp c op).1.s.maxInFlight = m := (stepOp_frame hi op).1.trans hm
+    have hnow : (stepOp c op).1.now + advSum ops ≤ T := by
+      rw [stepOp_now]; simp only [advSum] at hT; omega
+    have hnow' : (stepOp c op).1.now ≤ T := by omega
     have hog := obs_stepOp hi op
     rw [hm'] at hog
     -- the op event
     have hb1 : (Mon.step check mon (.op op)).bad = none := Mon.step_ok_op check mon _ hb (hop _ _ _)
-    have hc1 : Cpl (stepOp c op).1 (Mon.step check mon (.op op)).book := by
-      rw [Mon.step_book]; exact hc.op hi op
+    have hc1 : BCpl (stepOp c op).1 (Mon.step check mon (.op op)).book := by
+      rw [Mon.step_book_eq]; exact hc.op hi op
     -- the observations of the op
-    have hobsl : ∀ (os : List Obs) (mon1 : Mon σ), (∀ o ∈ os, ObsGood m (stepOp c op).1.s.calls o) →
-        Cpl (stepOp c op).1 mon1.book → mon1.bad = none →
-        Cpl (stepOp c op).1 ((os.map CEv.obs).foldl (Mon.step check) mon1).book ∧
+    have hobsl : ∀ (os : List Obs) (mon1 : Mon σ),
+        (∀ o ∈ os, ObsGood m (stepOp c op).1.s.calls (stepOp c op).1.now o) →
+        BCpl (stepOp c op).1 mon1.book → mon1.bad = none →
+        BCpl (stepOp c op).1 ((os.map CEv.obs).foldl (Mon.step check) mon1).book ∧
           ((os.map CEv.obs).foldl (Mon.step check) mon1).bad = none := by
       intro os
       induction os with
@@ -180,28 +184,30 @@ theorem mon_accepts_from {σ : Type} (check : Book → σ → CEv → σ × Opti
         simp only [List.map_cons, List.foldl_cons]
         apply ih2
         · exact fun o' ho' => hg o' (List.mem_cons_of_mem _ ho')
-        · rw [Mon.step_book]; exact h1.obs o
-        · exact Mon.step_ok_obs check mon1 _ h2 (hobs _ _ _ _ hm' hi' h1 (hg o List.mem_cons_self))
+        · rw [Mon.step_book_eq]; exact h1.obs o
+        · exact Mon.step_ok_obs check mon1 _ h2 (hobs _ _ _ _ hm' hnow' hi' h1 (hg o List.mem_cons_self))
     obtain ⟨hc2, hb2⟩ := hobsl _ _ hog hc1 hb1
-    exact ih _ _ hi' hm' hc2 hb2
+    exact ih _ _ hi' hm' hc2 hb2 hnow
 
 /-- A checker that never objects to an op, and never objects to an observation that is good for a state coupled
-with its book, accepts every trace of the client model. -/
+with its book (whose clock is within the script's total advance `T`), accepts every trace of the client model. -/
 theorem mon_accepts {σ : Type} (check : Book → σ → CEv → σ × Option String) (m bcap tcap : Nat) (coupled : Bool)
-    (init : σ)
+    (init : σ) (T : Nat)
     (hop : ∀ bk st op, (check bk st (.op op)).2 = none)
-    (hobs : ∀ (c : Sys) bk st o, c.s.maxInFlight = m → Inv c.s c.now → Cpl c bk → ObsGood m c.s.calls o →
-      (check bk st (.obs o)).2 = none)
-    (ops : List COp) : (Mon.run check init (trace (initSys m bcap tcap coupled) ops)).ok = true := by
+    (hobs : ∀ (c : Sys) bk st o, c.s.maxInFlight = m → c.now ≤ T → StInv c.s c.now → BCpl c bk →
+      ObsGood m c.s.calls c.now o → (check bk st (.obs o)).2 = none)
+    (ops : List COp) (hT : advSum ops ≤ T) :
+    (Mon.run check init (trace (initSys m bcap tcap coupled) ops)).ok = true := by
   unfold Mon.run Mon.ok
-  rw [mon_accepts_from check m hop hobs ops (initSys m bcap tcap coupled) { st := init }
-    (inv_init 0 m bcap tcap coupled 0) rfl (cpl_init m bcap tcap coupled) rfl]
+  rw [mon_accepts_from check m T hop hobs ops (initSys m bcap tcap coupled) { st := init }
+    (inv_init 0 m bcap tcap coupled 0) rfl (cpl_init m bcap tcap coupled) rfl
+    (by show 0 + advSum ops ≤ T; omega)]
   rfl
 
-/-- Every observation in a trace is good for some list of calls (enough for observations whose goodness does not
-depend on the calls: `counts`, `panic`). -/
-theorem trace_obs_good (m : Nat) (ops : List COp) (c : Sys) (hi : Inv c.s c.now) (hm : c.s.maxInFlight = m) :
-    ∀ o, CEv.obs o ∈ trace c ops → ∃ calls, ObsGood m calls o := by
+/-- Every observation in a trace is good for some list of calls at some instant within the script's total advance
+(enough for observations whose goodness does not depend on the calls: `counts`, `panic`). -/
+theorem trace_obs_good (m : Nat) (ops : List COp) (c : Sys) (hi : StInv c.s c.now) (hm : c.s.maxInFlight = m) :
+    ∀ o, CEv.obs o ∈ trace c ops → ∃ calls now, now ≤ c.now + advSum ops ∧ ObsGood m calls now o := by
   induction ops generalizing c with
   | nil => intro o ho; simp [trace] at ho
   | cons op ops ih =>
@@ -210,7 +216,10 @@ theorem trace_obs_good (m : Nat) (ops : List COp) (c : Sys) (hi : Inv c.s c.now)
       false_or] at ho
     have hm' : (stepOp c op).1.s.maxInFlight = m := (stepOp_frame hi op).1.trans hm
     rcases ho with ho | ho
-    · exact ⟨_, hm' ▸ obs_stepOp hi op o ho⟩
-    · exact ih _ (inv_stepOp hi op) hm' o ho
+    · refine ⟨_, (stepOp c op).1.now, ?_, hm' ▸ obs_stepOp hi op o ho⟩
+      rw [stepOp_now]; simp only [advSum]; omega
+    · obtain ⟨calls, now, hn, hg⟩ := ih _ (inv_stepOp hi op) hm' o ho
+      refine ⟨calls, now, ?_, hg⟩
+      rw [stepOp_now] at hn; simp only [advSum]; omega
 
 end TarpcModel.Client
